@@ -157,8 +157,8 @@ def _evaluate(ctx, cases, res):
 
 def run(ctx, res):
     jr = fresh_import(ctx.repo, 'aiorpcx.jsonrpc')
-    from harness.c02 import unlisted_failure
-    n = 120 if unlisted_failure(ctx, res) else (3000 if ctx.tier == 'thorough' else 400 if ctx.deep else 120)
+    from harness.c02 import is_deep, unlisted_failure
+    n = 120 if unlisted_failure(ctx, res) else (3000 if ctx.tier == 'thorough' else 400 if is_deep(ctx) else 120)
     cases = [random_case(ctx.rng, jr) for _ in range(n)]
     # fixed ones: F8, all invalid, notifications only, oversize
     v2 = lambda m, **kw: dict({'jsonrpc': '2.0', 'method': 'm', 'params': [m]}, **kw)
